@@ -154,7 +154,8 @@ func (p *memoryState[T]) SMembers(key string) ([]string, error) {
 		return []string{}, err
 	}
 
-	return set.([]string), nil
+	// hand out a copy: SRem shifts the elements of the stored slice in place
+	return append([]string{}, set.([]string)...), nil
 }
 
 func (p *memoryState[T]) SRem(key string, value string) error {
